@@ -268,13 +268,13 @@ QUICK_DENY = [
     r"skein_mode::quick::c05_skein1024_(1|32|64|129|200)_", r"skein_ubi::c05_process_block1024",
     # Skein-1024 is the same define_hasher! body as Skein-256/512 and each of its harnesses costs 5-7 CPU minutes
     # (GenericArray<u8, U128> iterator plumbing): quick keeps six boundary shapes, thorough runs all
-    r"skein_mode::quick::c05_skein1024_128_finalize_p(1|64|127)$", r"skein_mode::quick::c08_skein1024_128_update_p(0_n0|0_n128|0_n257|127_n2|128_n129|1_n127)$",
+    r"skein_mode::quick::c05_skein1024_128_finalize_p(1|64|127)$", r"skein_mode::quick::c08_skein1024_128_update_p(0_n0|0_n128|0_n257|127_n2|128_n129|128_n128|1_n127)$",
     r"tf1024::c09_encrypt_wiring$", r"tf1024::c10_decrypt_wiring$",                     # the Verus route covers the 1024-bit cores in quick
 ]
 # harnesses known to be slow are started first (longest-first scheduling shortens the critical path)
 SLOW_FIRST = [r"skein1024", r"jh_e8::", r"iv_contract", r"groestl_core::", r"1024", r"blake_core::wiring", r"512", r"refill4", r"n(320|321|319|257|258)$"]
 QUICK_ONLY = {
-    "C08": {"hashes": r"_(default_reset|clone_p\d+_n\d+|update_p0_n(32|33|64|65|128|129)|update_p(31|32|63|64|127|128)_n1)$"},
+    "C08": {"hashes": r"_(default_reset|clone_p\d+_n\d+|update_p0_n(32|33|64|65|128|129)|update_p(31|32|63|64|127|128)_n(0|1)|update_p(32|64)_n(32|64))$"},
     "C17": {"hashes": r"(blake\d+|groestl\d+|jh\d+|skein(256_32|512_64|1024_128))_(finalize_p(0|31|32|63|64|127|128)|update_p0_n(32|64|128))$"},
     "C03": {"hashes": r"(c04_(round|diag)|c04_finalize_|c04_put_block256_|c06_ss_l_leaf)", "hashes_generic": r"(c04_(round|diag)|c04_finalize_|c04_put_block256_|c06_ss_l_leaf)"},
     "C16": {"hashes": r"(c04_finalize_l[04]|c04_put_block256_l4|c07_wiring_tf512|c07_wiring_of512|finalize_p0$)"},
